@@ -16,7 +16,7 @@ CHECKS = {
  "C15": ("all MonCore rules under the method x fault-plan matrix (EINTR at the k-th wait and signals interrupting waits, ENOSYS/EPERM fall-backs from the 1st/k-th call), raw-event bursts with eventfd absent/old, iv_fd_pump read/write fallback under MonPump; IvCore model checked with interrupted waits", "4/C15"),
  "C08": ("TLC model checking of spec/IvEvent.tla (no lost wake-up, no over-delivery, liveness) and spec/IvEventReg.tla (registration life cycle; its generated programs replayed on the real code) + schedule enumeration of real threads under the baton scheduler, traces validated by TLC against MonCore rules C08:*", "4/C08"),
  "C09": ("TLC model checking of spec/IvRaw.tla (eventfd / pipe modes) + schedule enumeration and bursts on the real code in eventfd2 / eventfd / pipe mode, traces validated against MonCore rules C09:*", "4/C09"),
- "C10": ("TLC model checking of spec/IvSignal.tla composed with the MonSig monitor + simulated signal deliveries on the real code plus a real-fork pass-through scenario (harness/ivh_sigfork_real.c: forked child that keeps using the library), traces validated by TLC against MonSig rules C10:*", "4/C10"),
+ "C10": ("TLC model checking of spec/IvSignal.tla and spec/IvSignalFork.tla (fork: child copy of the signal state, three refuted guard-less variants) composed with the MonSig monitor + simulated signal deliveries on the real code plus a real-fork pass-through scenario (harness/ivh_sigfork_real.c: forked child that keeps using the library), traces validated by TLC against MonSig rules C10:*", "4/C10"),
  "C11": ("TLC model checking of spec/IvWait.tla composed with MonSig + simulated child processes (pid reuse, strangers, exit-before-fork-returns) on the real code, traces validated against MonSig rules C11:*", "4/C11"),
  "C12": ("TLC model checking of spec/IvWork.tla (exactly-once, max concurrency, no stranded work, liveness) + schedule enumeration / random schedules with 10 s time jumps on the real pool, traces validated against MonWork rules C12:*", "4/C12"),
  "C13": ("TLC model checking of spec/IvWork.tla (release only when drained, hooks paired, liveness Released) + real pool shutdown / iv_thread exit scenarios, traces validated against MonWork rules C13:*", "4/C13"),
